@@ -93,7 +93,8 @@ func runCase(base string, i int, c cs) (rec, error) {
 			[]kobj.Rule{{Host: "e.local", Paths: []kobj.Path{{Path: "/", Svc: "app", Port: "8080"}}}}, nil, nil))
 	}
 	// the protected hostname is also known as b.local: a request using the alias is the same request
-	ann := map[string]string{"ssl-redirect": "false", "auth-external-placement": c.Placement, "server-alias": "b.local"}
+	ann := map[string]string{"ssl-redirect": "false", "auth-external-placement": c.Placement, "server-alias": "b.local",
+		"server-alias-regex": `^[^.]+\.alt\.local$`}
 	if c.URL != "none" {
 		ann["auth-url"] = urls[c.URL]
 	}
